@@ -243,3 +243,8 @@ func IntGe(x M, c int64) M {
 func NonEmpty(x M) M {
 	return OneOf(Bin("!=", Len(x), Const("0")), Bin("<", Const("0"), Len(x)), Bin("<=", Const("1"), Len(x)))
 }
+
+// Empty matches len(x) == 0 in any of its integer spellings (len <= 0, len < 1).
+func Empty(x M) M {
+	return OneOf(Bin("==", Len(x), Const("0")), Bin("<=", Len(x), Const("0")), Bin("<", Len(x), Const("1")))
+}
